@@ -1216,6 +1216,56 @@ func checkMembershipEquality(w *World, r *Report, evalCases map[string]*ast.Case
 		r.note("the == arm of evaluateBinaryOp calls no two-argument equality function of the package: R08.8 has no anchor")
 		return
 	}
+	// ---- R08.13: numeric equality is exact.  Neither the equality routine of the == arm nor a
+	// helper it hands two numbers to compares floating-point numbers by order (<, <=, >, >=): an
+	// "equal up to rounding error" makes 1700000000 == 1700000001 true (the tolerance grows with
+	// the operands), so == stops agreeing with the integers the template wrote.
+	{
+		nEq := 0
+		seenEq := map[*ssa.Function]bool{}
+		var scanEq func(f *ssa.Function, d int)
+		scanEq = func(f *ssa.Function, d int) {
+			if f == nil || seenEq[f] || d > 2 || len(f.Blocks) == 0 {
+				return
+			}
+			seenEq[f] = true
+			isFloat := func(t types.Type) bool {
+				b, ok := t.Underlying().(*types.Basic)
+				return ok && b.Info()&types.IsFloat != 0
+			}
+			instrsOf(f, func(in ssa.Instruction) {
+				switch x := in.(type) {
+				case *ssa.BinOp:
+					if !isFloat(x.X.Type()) {
+						return
+					}
+					switch x.Op {
+					case token.EQL, token.NEQ:
+						nEq++
+					case token.LSS, token.LEQ, token.GTR, token.GEQ:
+						nEq++
+						r.bad("R08.13", ssaName(f), "numbers are compared for equality exactly", w.posOf(x.Pos()), "the equality of == orders two floating-point numbers ("+x.Op.String()+"): equality within a tolerance is not equality — large integers one apart compare equal, and == / != / in stop agreeing with the numbers written in the template")
+					}
+				case *ssa.Call:
+					if g := x.Call.StaticCallee(); g != nil && isTwigFn(g) && d < 2 {
+						takesFloats := 0
+						for _, a := range x.Call.Args {
+							if isFloat(a.Type()) {
+								takesFloats++
+							}
+						}
+						if takesFloats >= 2 {
+							scanEq(g, d+1)
+						}
+					}
+				}
+			})
+		}
+		for _, e := range eqFns {
+			scanEq(e, 0)
+		}
+		r.ok("R08.13", "(equality of ==)", "numbers are compared for equality exactly", "-", fmt.Sprintf("%d floating-point comparisons examined in the equality routine and its numeric helpers", nEq), true)
+	}
 	n := 0
 	for _, op := range []string{"in", "not in"} {
 		arm := evalCases[op]
